@@ -469,8 +469,12 @@ def c16(tier, seed):
                               driver='specgen', trace=('SpecGenTrace', 'SpecGenTrace.cfg'),
                               deviations={'OpenApi30Invalid': 'SpecGenTrace_dev_OpenApi30Invalid.cfg',
                                           'DocstringNullType': 'SpecGenTrace_dev_DocstringNullType.cfg'},
-                              nontrivial=lambda tr: len(tr['ev']) == 3)],
-                rule='method sets of 1..%d methods from a pool of 4 functions (annotated scalar / container / model / optional '
+                              nontrivial=lambda tr: len(tr['ev']) == 3),
+                        Stage('specendpoint', mc=('SpecEndpointMC', 'SpecEndpoint.cfg'), emit=('SpecEndpointMC', 'SpecEndpoint_emit.cfg'),
+                              driver='specendpoint', trace=('SpecEndpointTrace', 'SpecEndpointTrace.cfg'), drive_shards=4,
+                              nontrivial=lambda tr: len(tr['ev']) == 2)],
+                rule='(the aiohttp / flask applications additionally serve the document over HTTP: GET of the specification URL twice, for '
+                     'one / two endpoints x two base paths x the three document kinds) method sets of 1..%d methods from a pool of 4 functions (annotated scalar / container / model / optional '
                      'parameters, model / list / None / missing return annotations, docstrings with and without :param / :raises:) x '
                      'root / additional endpoint x errors annotation unset / own list / ONE LIST OBJECT SHARED by several methods x tags x '
                      'component prefix x extractor stacks (base, pydantic, docstring+pydantic; OpenRPC: pydantic, docstring) x two '
